@@ -122,8 +122,11 @@ func runLinkedMapOrder[K comparable](c *core.Ctx, d *Dom[K]) {
 	check()
 	r := c.R
 	steps := r.Range(20, 200)
+	if len(d.Alpha) >= 200 {
+		steps = 1200
+	}
 	for s := 0; s < steps; s++ {
-		switch r.Pick(50, 30, 8, 2) {
+		switch r.Pick(50, 30, 8, btoi(len(d.Alpha) < 200)*2) {
 		case 0:
 			k := d.Val(r)
 			val++
@@ -241,8 +244,11 @@ func runLinkedSetOrder[T comparable](c *core.Ctx, d *Dom[T]) {
 	check()
 	r := c.R
 	steps := r.Range(20, 200)
+	if len(d.Alpha) >= 200 {
+		steps = 1200
+	}
 	for st := 0; st < steps; st++ {
-		switch r.Pick(50, 30, 8, 2) {
+		switch r.Pick(50, 30, 8, btoi(len(d.Alpha) < 200)*2) {
 		case 0:
 			k := varCount(r)
 			vs := make([]T, k)
@@ -299,6 +305,15 @@ func runLinkedSetOrder[T comparable](c *core.Ctx, d *Dom[T]) {
 
 func runC09(c *core.Ctx) {
 	c.SetGaps((c.Index/4)%2 == 1)
+	if c.Index%97 == 11 { // hundreds of live keys
+		c.Count("linked:wide-cases", 1): removal positions deep inside a long order list
+		if c.Index%2 == 0 {
+			runLinkedMapOrder(c, IntDom(c.R.Range(200, 600)))
+		} else {
+			runLinkedSetOrder(c, IntDom(c.R.Range(200, 600)))
+		}
+		return
+	}
 	switch c.Index % 4 {
 	case 0:
 		runLinkedMapOrder(c, IntDom(c.R.Range(3, 12)))
